@@ -7,7 +7,7 @@ reference C evaluator and by the RzIL interpreter on generated states; final sta
 """
 from .. import run, gen, progcheck
 
-FEATURES = gen.SAFE_CORE | {"hyb_inc", "div", "chain_assign"}   # postfix ++/-- also inside if conditions: the branch must see the old value
+FEATURES = gen.SAFE_CORE | {"hyb_inc", "div", "chain_assign", "unbraced", "hyb_unused_stmt", "narrow", "compound_assign_narrow"}   # postfix ++/-- also inside if conditions: the branch must see the old value
 
 
 def _nontrivial(stmts, judged):
